@@ -47,6 +47,9 @@ def _chunked(body: bytes, sizes=None, ext: str = "") -> bytes:
     return bytes(out)
 
 
+EMBEDDED_RESPONSE = b"HTTP/1.1 200 OK\r\nX-Forged: 1\r\nContent-Length: 9\r\n\r\n[FORGED!]"
+
+
 def build_response(spec: dict, req: Req | None, idx: int) -> tuple[bytes, bool, bytes]:
     """Serialise a scripted response.  Returns (bytes, keepalive, body)."""
     if spec.get("k") == "raw":
@@ -57,7 +60,10 @@ def build_response(spec: dict, req: Req | None, idx: int) -> tuple[bytes, bool, 
     body = spec.get("body", None)
     if isinstance(body, dict):  # {"tag": n}: body names the request it answers
         tgt = req.target if req is not None else "?"
+        emb = body.get("embed")
         body = (f"[{req.method if req else '?'} {tgt} #{idx}]" * int(body.get("tag", 1))).encode()
+        if emb:  # the tail of this body is itself a well-formed HTTP response (a batch / message-http style payload)
+            body += EMBEDDED_RESPONSE
     elif body is None:
         body = f"[{req.method if req else '?'} {req.target if req else '?'} #{idx}]".encode() if spec.get("autobody", True) else b""
     elif isinstance(body, str):
@@ -246,6 +252,10 @@ class HttpPeer:
                 for st in pre:
                     chan.peer_push(f"HTTP/1.1 {st} Interim\r\n\r\n".encode(), delay)
             split = spec.get("split")  # [offset, extra delay]: the tail arrives later
+            if spec.get("split_embed") is not None:  # split exactly where the embedded message starts
+                off = data.find(EMBEDDED_RESPONSE, data.find(b"\r\n\r\n") + 4)
+                if off > 0:
+                    split = [off, float(spec["split_embed"])]
             if split and 0 < int(split[0]) < len(data):
                 chan.peer_push(data[: int(split[0])], delay)
                 delay += float(split[1])
